@@ -33,7 +33,8 @@ REPO = os.environ.get("VERIF_REPO", "/repo")
 
 TRUSTED_BASE = [
     "the VC generator itself (engine/*.py: AST symbolic interpreter, sequence/set/tensor encodings); mitigated by "
-    "the mutation self-tests recorded in DESIGN.md and by the CPython cross-check of `vf selftest`",
+    "the mutation self-tests recorded in DESIGN.md and by the CPython cross-check run by `vf setup` (tools/engine_crosscheck*.py: ~1400 concrete "
+    "calls / operator runs / template circuits executed natively and inside the engine, results identical)",
     "z3 4.x/5.1 (python3-vt) and cvc5 1.0.3 on z3's unknowns",
     "assumed contracts of Python builtins, itertools, functools.partial, copy.copy (engine/builtins_.py, engine/stubs.py)",
     "assumed contracts of torch primitives (engine/tensor.py install()): unsqueeze squeeze permute transpose movedim "
@@ -43,6 +44,12 @@ TRUSTED_BASE = [
     "floating point treated as real arithmetic; exp/log/sqrt/sigmoid/softplus/conj uninterpreted; int64 overflow ignored",
     "finite sums may be re-indexed by a permutation of independent bound variables and by mixed-radix splitting of a "
     "flattened axis (engine/tensor.py make_red)",
+    "loop-rule obligations (ids containing .step. / .prefix / .suffix): the induction principle 'prefix establishes the invariant, one iteration from an "
+    "arbitrary state preserves it, the suffix uses it' is assumed; the arity of the layer / node in one iteration is enumerated; frame-guarded maps make a "
+    "lookup outside the iteration's frame `unsupported` rather than a verdict",
+    "assumed contracts of torch.cat (dim 0), einops.rearrange/repeat, torch.gather, torch.distributions (a draw is an uninterpreted value in the support), "
+    "numpy.eye / ones / transpose and scipy.linalg.block_diag modelled as tensors; contextvars.ContextVar, heapq.merge, functools.cache as memoisation",
+    "obligations on circuit / graph TEMPLATES are unbounded in every integer, set and tensor but bounded in the shape of the graph (the template)",
 ]
 
 
